@@ -24,20 +24,30 @@ from harness import c06_extract as cx  # noqa: E402
 from harness import c06_monitors as mon  # noqa: E402
 
 CLAIM = {
-    "text": "Unbounded theorems (any number of rows, any non-negative labels, any commutative ring) about "
-            "executable Coq models of the label-dependent code: index lookups are exact and independent of the "
-            "label values; grouped sums (numpy argsort path for whatever order argsort returns, numba bucket "
-            "path, the 1e5 dispatch) equal the per-key-sum specification; the structural pit columns of a "
-            "relabelled net are those of the original except ELEMENT_IDX; multi-section results (end values, "
-            "section means, last-section outlet temperature) are written to the row of their own element for "
-            "every duplicate-free labelling. The models are tied to /repo by exact correspondences evaluated "
-            "inside Coq; real pipeflow runs under relabelling, row permutation and re-creation are monitored.",
-    "note": "All theorems are closed under the global context (no axioms). Row-permutation and creation-order "
-            "invariance of the *numerical* results is not a theorem (it needs solver exactness); it is "
-            "monitored with 1e-9 relative tolerance. Labels are assumed non-negative and duplicate-free "
-            "(what create_* enforces). argsort is a Section-style input (any valid order), pandas row order "
-            "is an oracle.",
-    "technique": "Coq proof over hand-written models + exact model/implementation correspondence + monitors",
+    "text": "16 theorems (coq/C06/Props.v), all closed under the global context, about executable Coq models of the "
+            "label- and order-dependent code, for any number of rows and any duplicate-free non-negative labels: index "
+            "lookups are exact and independent of the label values; get_internal_lookup_structure; grouped sums - numpy "
+            "path in its reduceat form for whatever order argsort returns, numba bucket path, the 1e5 dispatch - equal "
+            "the per-key-sum specification in every commutative ring; a relabelled net has the same FROM/TO pit columns "
+            "(np.insert chaining over sections included); extract_branch_results_with_internals writes to the row of "
+            "the element itself: end values, the outlet section in flow direction (t_outlet_k), section means and the "
+            "section SUM of dp_frict_loss (final column content, at Z); set_fixed_node_entries = 'row r holds the mean of "
+            "the set-points given for its own label' as an equality of lists; a permuted junction table moves every "
+            "junction's pit position with it, and a linear system renumbered by a bijection has exactly the renumbered "
+            "solutions. Each model is tied to /repo by an exact correspondence evaluated inside Coq (real functions on "
+            "real nets / integer data, fixed corpora first); relabel / permute / re-create / bulk-re-create monitors on "
+            "real pipeflow runs search for failing nets.",
+    "note": "No axioms. PARTIAL: row-permutation and creation-order invariance of the numerical results - proved are the "
+            "position transport (row_permutation_positions) and the transport of solutions "
+            "(row_permutation_equivariance_partial); that the assembled system of the permuted net IS the transported "
+            "system is the named missing hypothesis (assembly model lives in C01), and creation order = row order is "
+            "not a theorem (C16 NetDB not connected); both are monitored (1e-9 relative / 1e-8 absolute after a re-run "
+            "at round-off Newton tolerances; lambda / reynolds not compared on no-flow rows). Z-level theorems use "
+            "Z.div (exact for the divisible integer data of the correspondences); NaN bookkeeping of the grouped sums "
+            "and float rounding are outside the models (a float-level label-independence monitor covers the latter). "
+            "Oracles: np.argsort (any valid order), np.add.reduceat (segment sums), pandas row order, numba codegen.",
+    "technique": "Coq proof over hand-written executable models + exact model/implementation correspondence inside Coq "
+                 "+ monitors",
     "design": "DESIGN.md 4/C06 + design_notes/C06.md",
 }
 GEN = []
